@@ -9,6 +9,7 @@ import EinoV.Model.Engine
 import EinoV.Proofs.C02
 import EinoV.Proofs.C02Run
 import EinoV.Proofs.C02Compile
+import EinoV.Proofs.C02Eager
 import EinoV.Gen.FactsC02
 import EinoV.Expected.C02
 import EinoV.Proofs.C02Workflow
@@ -287,6 +288,25 @@ theorem eager_completion_order_core_partial {V} (ops : ValOps V) (hm : MergePerm
       calcCore ops r cm [b] = .ok (cmB, rdB', badB') ∧ calcCore ops r cmB [a] = .ok (cmBA, rdA', badA') ∧
       ChansEquiv cmAB cmBA ∧ (rdA ++ rdB).Perm (rdB' ++ rdA') ∧ (badA || badB) = (badB' || badA') :=
   calcCore_diamond ops hm r hdag cm na nb a b selA selB ha hb hne hpa hpb hpred
+
+/-! ### run level: Workflows (eager loop) -/
+
+open EinoV.Engine.DagRun in
+/-- **workflow_at_most_once.** Under the eager run loop of Workflows — one completion at a time,
+    chosen by an arbitrary completion schedule `pick` — no node of a well-formed acyclic runner
+    is submitted twice: every wiring (control-only `AddDependency`, data-only
+    `WithNoDirectDependency`, `AddInput`, branches, static values), every node function and
+    branch outcome, every input, every completion order. -/
+theorem workflow_at_most_once {V} (ops : ValOps V) (r : Runner V) (wf : DagWF r) (pick : Pick V) (x : V) (k : Key) :
+    ((runEager ops r pick x).submitted.map (·.1)).count k ≤ 1 :=
+  runEager_at_most_once ops r wf pick x k
+
+open EinoV.Engine.DagRun in
+/-- **compiled_workflow_declares_predecessors.** Every compiled Workflow lists each node as a
+    control or data predecessor of each of its successors (clause `succ` of `DagWF`). -/
+theorem compiled_workflow_declares_predecessors {V} (ops : ValOps V) (w : WorkflowDef V) :
+    SuccOK (compileW ops w) := compileW_succOK ops w
+
 
 /-! ### the full run-level statement (goal, not proved)
 
